@@ -610,6 +610,13 @@ func main() {
 		}
 		k.subsets(a.Cfg)
 		k.transactions(a.Cfg, txs, spenders)
+		if a.Step == "side-chain table" {
+			k.pend = nil
+			k.sideTable()
+			k.flush()
+			os.RemoveAll(scr)
+			r.Finish(evid.Coverage{})
+		}
 		k.elementSequences(a.Cfg)
 		for ti := range txs {
 			k.txSequences(a.Cfg, txs[ti], spenders[ti*2], ti)
@@ -684,6 +691,7 @@ func main() {
 	}
 	k.flush()
 	k.txTypes(txs)
+	sideCells, sideMust, sideMatched, sideTab := k.sideTable()
 	k.flush()
 	k.nCases += int64(k.cases.Len())
 
@@ -699,22 +707,26 @@ func main() {
 	}
 	sort.Strings(names)
 	r.Assume = append(r.Assume,
-		"tweak 0xffffffff is the repository's documented side-chain SPV mode (matchTxAndUpdate looks at transaction types and outputs only, never updates): in that mode only payments to a watched address and listed transaction types are required to match; watched tx ids / spent outpoints are counted as side_mode_skipped, not alarmed",
+		"tweak 0xffffffff is the repository's documented side-chain SPV mode (matchTxAndUpdate looks at transaction types and outputs only, never updates): in that mode payments to a watched address (when the filter has a bit array) and listed transaction types are required to match and are enumerated as a full table (sidemode.go); watched tx ids / spent outpoints are not looked at by design and are counted as side_mode_skipped, not alarmed",
 		"FilterLoad.Flags (BIP37 update type) is not interpreted by the repository: every matching output's outpoint is added for every flag value, which is a superset of what any update type asks for; the check requires the outpoint to match afterwards for all flag values",
 		"filters the node refuses to load (size 36001, 51 hash functions) are outside the property and only counted",
 		"bit-for-bit equality of filters is not demanded, only that each implementation finds the elements the other one inserted")
 	os.RemoveAll(scr)
 	r.Finish(evid.Coverage{
-		"evaluations":         k.evals + nMurmur,
-		"distinct_nontrivial": k.nCases,
-		"rule":                fmt.Sprintf("%d filter configurations: bloom.NewFilter over elements {0,1,2,10,1000} x fprate {1e-9,0.01,0.5,1} x tweak {0,1,2^32-1}; filterload payload bytes with size {0,1,36000,36001} x hashFuncs {0,1,50,51} x tweak {0,1,2^32-1} and flags {0,1,2,255}, pushed through msg.FilterLoad.Deserialize and the server's filter.Filter.Load/TxFilterLoad/bloom.TxFilter.Load. Per loadable configuration: every subset of the 8-item menu [%s] added through Filter.Add and through the filteradd path, every item then queried (Matches/MatchesOutPoint), node-built bits read by the reference and reference-built bits loaded into the node; %d transfers x watched item {txid, output0, output1, spent outpoint} through MatchTxAndUpdate/MatchConfirmed/MatchUnconfirmed, then the created outpoint and the transaction spending it. Operation sequences on one filter object: every sequence up to length 4 over {query x, add x} for each item and over {query x, add x, query y, add y} for three pairs; query-all / add-subset / query-all for every subset (also after 300 other queries); every sequence up to length 4 over {watch address, watch outpoint, present parent, present spender} via MatchTxAndUpdate, MatchConfirmed and MatchUnconfirmed — whatever was added earlier in the sequence must match. MurmurHash3 against the reference for 49 inputs x 51 hash numbers x 6 tweaks plus 13 published vectors. distinct_nontrivial = distinct (configuration, subset, item) and (configuration, tx, watched) queries answered without a refusal to load", len(cfgs), strings.Join(names, ", "), len(txs)),
-		"exhaustive":          true,
-		"configurations":      len(cfgs),
-		"loadable":            loadable,
-		"refused_by_node":     len(cfgs) - loadable,
-		"murmur_comparisons":  nMurmur,
-		"panics_by_site":      k.panics,
-		"side_mode_skipped":   k.sideSkips,
-		"samples":             samples,
+		"evaluations":                k.evals + nMurmur,
+		"distinct_nontrivial":        k.nCases,
+		"rule":                       fmt.Sprintf("%d filter configurations: bloom.NewFilter over elements {0,1,2,10,1000} x fprate {1e-9,0.01,0.5,1} x tweak {0,1,2^32-1}; filterload payload bytes with size {0,1,36000,36001} x hashFuncs {0,1,50,51} x tweak {0,1,2^32-1} and flags {0,1,2,255}, pushed through msg.FilterLoad.Deserialize and the server's filter.Filter.Load/TxFilterLoad/bloom.TxFilter.Load. Per loadable configuration: every subset of the 8-item menu [%s] added through Filter.Add and through the filteradd path, every item then queried (Matches/MatchesOutPoint), node-built bits read by the reference and reference-built bits loaded into the node; %d transfers x watched item {txid, output0, output1, spent outpoint} through MatchTxAndUpdate/MatchConfirmed/MatchUnconfirmed, then the created outpoint and the transaction spending it. Operation sequences on one filter object: every sequence up to length 4 over {query x, add x} for each item and over {query x, add x, query y, add y} for three pairs; query-all / add-subset / query-all for every subset (also after 300 other queries); every sequence up to length 4 over {watch address, watch outpoint, present parent, present spender} via MatchTxAndUpdate, MatchConfirmed and MatchUnconfirmed — whatever was added earlier in the sequence must match. Side-chain mode table: bit array {64/7, 36000/50, 1/1, 0/0, 0/3} x transaction {transfer, record, coinbase} x TxTypes {none, own, other, own+other, other+unused} x watched {none, output0, output1, unpaid address, output1+unpaid} via MatchConfirmed and MatchUnconfirmed: must match iff the type is listed or (bit array non-empty and an output pays a watched address). MurmurHash3 against the reference for 49 inputs x 51 hash numbers x 6 tweaks plus 13 published vectors. distinct_nontrivial = distinct (configuration, subset, item) and (configuration, tx, watched) queries answered without a refusal to load", len(cfgs), strings.Join(names, ", "), len(txs)),
+		"exhaustive":                 true,
+		"configurations":             len(cfgs),
+		"loadable":                   loadable,
+		"refused_by_node":            len(cfgs) - loadable,
+		"murmur_comparisons":         nMurmur,
+		"panics_by_site":             k.panics,
+		"side_mode_skipped":          k.sideSkips,
+		"side_mode_cells":            sideCells,
+		"side_mode_cells_must_match": sideMust,
+		"side_mode_cells_matched":    sideMatched,
+		"side_mode_table_size":       len(sideTab),
+		"samples":                    samples,
 	})
 }
